@@ -36,6 +36,10 @@ pub enum Op {
     Random { bytes: Vec<u8> },
     /// an oversized length prefix
     Oversized { len: u32 },
+    /// a document ticket (capability + nodes; node kinds: 0 id only, 1 with an IP address, 2 with a
+    /// relay URL, 3 with both) through bytes and through its string form; also the capability's
+    /// raw form
+    Ticket { write: bool, ns: u8, nodes: Vec<u8> },
 }
 
 pub struct C09 {
@@ -122,7 +126,7 @@ impl Property for C09 {
         "C09"
     }
     fn rule(&self) -> String {
-        "frames (Init, Sync, Abort) produced by real reconciliation sessions between two replicas of 0-8 entries each: encoded with the real codec and compared with the Lean encoder; their concatenation fed back in random chunkings, at every two-chunk split point and truncated at every length; single-byte corruptions (random, and for small frames every byte with two masks); oversized length prefixes; random byte strings (biased towards valid prefixes) to the frame decoder, the message decoder, the entry decoder, AuthorHeads, DocTicket, Capability and DownloadPolicy decoders under catch_unwind; non-trivial = at least one frame carrying entries took part".into()
+        "frames (Init, Sync, Abort) produced by real reconciliation sessions between two replicas of 0-8 entries each: encoded with the real codec and compared with the Lean encoder; their concatenation fed back in random chunkings, at every two-chunk split point and truncated at every length; single-byte corruptions (random, and for small frames every byte with two masks); oversized length prefixes; document tickets with 0-4 nodes (id only / IP address / relay URL / both) and capabilities through their byte, string and raw forms; random byte strings (biased towards valid prefixes) to the frame decoder, the message decoder, the entry decoder, AuthorHeads, DocTicket, Capability and DownloadPolicy decoders under catch_unwind; non-trivial = at least one frame carrying entries took part".into()
     }
     fn corpus(&self) -> Vec<(String, Vec<Op>)> {
         let p = |side: u8, a: usize, k: &[u8], c: Option<usize>, ts: u64| Op::Put { side, a, key: k.to_vec(), c, ts };
@@ -135,6 +139,12 @@ impl Property for C09 {
                 Op::Random { bytes: { let mut v = vec![1u8; 128]; v.extend([10, 1, 2, 3, 4, 5, 6, 7, 8, 9, 10, 0]); v.extend([7u8; 32]); v.push(5); v } },
             ]),
             ("oversized".into(), vec![Op::Oversized { len: 1073741825 }, Op::Oversized { len: 1073741824 }, Op::Oversized { len: u32::MAX }]),
+            ("tickets".into(), vec![
+                Op::Ticket { write: false, ns: 7, nodes: vec![0] },
+                Op::Ticket { write: true, ns: 7, nodes: vec![0, 0, 0] },
+                Op::Ticket { write: true, ns: 9, nodes: vec![1, 2, 3, 0] },
+                Op::Ticket { write: false, ns: 9, nodes: vec![] },
+            ]),
         ]
     }
     fn generate(&self, rng: &mut Rng, _i: usize, thorough: bool) -> Vec<Op> {
@@ -153,6 +163,10 @@ impl Property for C09 {
                 0..=3 => ops.push(Op::Chunks { cuts: (0..rng.range(1, 6)).map(|_| rng.below(4000)).collect() }),
                 4..=6 => ops.push(Op::Corrupt { frame: rng.below(8), pos: rng.below(100000), xor: *rng.pick(&[1u8, 0x80, 0xFF, 0x7F]) }),
                 7 => ops.push(Op::Oversized { len: *rng.pick(&[1073741825u32, 0x7FFFFFFF, u32::MAX, 1073741824]) }),
+                8 => {
+                    let n = rng.below(4);
+                    ops.push(Op::Ticket { write: rng.chance(1, 2), ns: rng.below(250) as u8 + 1, nodes: (0..n).map(|_| rng.below(4) as u8).collect() })
+                }
                 _ => {
                     let len = rng.below(300);
                     let mut bytes: Vec<u8> = (0..len).map(|_| *rng.pick(&[0u8, 1, 2, 3, 32, 64, 0x7f, 0x80, 0xff, 0xaf])).collect();
@@ -313,6 +327,51 @@ impl Property for C09 {
                             }
                         }
                     }
+                }
+                Op::Ticket { write, ns, nodes } => {
+                    use iroh_tickets::Ticket as _;
+                    let secret = iroh_docs::NamespaceSecret::from_bytes(&[*ns; 32]);
+                    let cap = if *write { Capability::Write(secret.clone()) } else { Capability::Read(secret.id()) };
+                    // the capability's raw form
+                    let (kind, raw) = cap.raw();
+                    let cap_ok = Capability::from_raw(kind, &raw).map(|c| c.raw() == (kind, raw)).unwrap_or(false);
+                    lines.push(Line::oracle("sconst capability-roundtrip=1", format!("capability-roundtrip={}", cap_ok as u8)));
+                    let addrs: Vec<iroh::EndpointAddr> = nodes
+                        .iter()
+                        .enumerate()
+                        .map(|(i, k)| {
+                            let mut a = iroh::EndpointAddr::new(iroh::SecretKey::from_bytes(&[0x40 + i as u8; 32]).public());
+                            if k & 1 == 1 {
+                                a = a.with_ip_addr(std::net::SocketAddr::from(([127, 0, 0, 1 + i as u8], 4000 + i as u16)));
+                            }
+                            if k & 2 == 2 {
+                                a = a.with_relay_url(format!("https://relay{i}.example.org").parse().expect("relay url"));
+                            }
+                            a
+                        })
+                        .collect();
+                    let ticket = DocTicket::new(cap, addrs.clone());
+                    let same = |t: &DocTicket| t.capability.raw() == (kind, raw) && t.nodes == addrs;
+                    let res = guarded(|| {
+                        let via_bytes = <DocTicket as iroh_tickets::Ticket>::decode_bytes(&ticket.encode_bytes());
+                        let via_text = ticket.to_string().parse::<DocTicket>();
+                        (via_bytes.map(|t| same(&t)).map_err(|e| e.to_string()), via_text.map(|t| same(&t)).map_err(|e| e.to_string()))
+                    });
+                    // specification: a ticket with at least one node comes back unchanged; one
+                    // without nodes is refused
+                    let want = if nodes.is_empty() { "ticket:refused/refused" } else { "ticket:same/same" };
+                    let got = match res {
+                        None => "ticket:panicked".to_string(),
+                        Some((b, t)) => {
+                            let f = |r: Result<bool, String>| match r {
+                                Ok(true) => "same".to_string(),
+                                Ok(false) => "changed".to_string(),
+                                Err(_) => "refused".to_string(),
+                            };
+                            format!("ticket:{}/{}", f(b), f(t))
+                        }
+                    };
+                    lines.push(Line::oracle(format!("sconst {want}"), got));
                 }
                 Op::Oversized { len } => {
                     let mut b = len.to_be_bytes().to_vec();
